@@ -80,6 +80,8 @@ def build(name, n, kw):
     kw = dict(kw)
     if "quadrature" in kw:
         kw["quadrature"] = getattr(og, kw["quadrature"])
+    if n % 5 == 3:
+        n = np.int64(n)   # sizes come out of NumPy computations as often as they are typed in
     with warnings.catch_warnings():
         warnings.simplefilter("ignore")
         with np.errstate(all="ignore"):
